@@ -67,10 +67,21 @@ def two_pass(vals):
                 m4=z3.Sum([(v - mean) ** 4 for v in vals]), min=mn, max=mx)
 
 
-def check_record(P, label, rec, spec, fields, xs, replay_params):
+def on_paths(P, body, then):
+    """run `body` under the E2 path explorer (data-dependent branches of the kernels fork) and hand every path's
+    result and path condition to `then`"""
+    from ..core import Inconclusive, explore
+    try:
+        explore(lambda ctx: body(), bound=4, on_path=lambda ctx, res: then(res, list(ctx.pc)), stats=P.stats, deadline_s=600)
+    except Inconclusive as e:
+        P.inconclusive_(f"path exploration: {e}")
+
+
+def check_record(P, label, rec, spec, fields, xs, replay_params, pc=()):
     """one query per field (polynomial identities and the ite-chains of min/max do not mix well)"""
     for f in fields:
         s = z3.Solver()
+        s.add(*pc)
         s.set("timeout", 60000)
         P.stats.queries += 1
         t0 = time.time()
@@ -80,6 +91,7 @@ def check_record(P, label, rec, spec, fields, xs, replay_params):
             diff = z3.simplify(lhs - rhs, som=True)
             s2 = z3.Tactic("qfnra-nlsat").solver()
             s2.set("timeout", 60000)
+            s2.add(*pc)
             r = s2.check(diff != 0)
             if r == z3.unknown:
                 r = s.check(diff != 0)
@@ -117,12 +129,13 @@ def chunk_work(P, item):
     fields = ("count", "m1", "m2", "m3", "m4", "min", "max") if mode == "full" else ("count", "m1", "m2", "min", "max")
     xs = [Sym(z3.Real(f"x{i}"), F4) for i in range(n * nch)]
     for comp in compositions(n):
-        m = accumulate(cap, mty, xs, comp, nch)
-        for c in range(nch):
-            spec = two_pass([xs[i * nch + c].t for i in range(n)])
-            check_record(P, f"chunks[{mode},n={n},nchans={nch},{'+'.join(map(str, comp))}]/chan{c}", m.store[c], spec, fields, xs,
-                         dict(kind="chunks", mode=mode, nchans=nch, chunks=comp))
-        P.reached += 1
+        def then(m, pc, comp=comp):
+            for c in range(nch):
+                spec = two_pass([xs[i * nch + c].t for i in range(n)])
+                check_record(P, f"chunks[{mode},n={n},nchans={nch},{'+'.join(map(str, comp))}]/chan{c}", m.store[c], spec, fields, xs,
+                             dict(kind="chunks", mode=mode, nchans=nch, chunks=comp), pc)
+            P.reached += 1
+        on_paths(P, lambda comp=comp: accumulate(cap, mty, xs, comp, nch), then)
 
 
 def merge_work(P, item):
@@ -138,16 +151,21 @@ def merge_work(P, item):
         comps_b = list(compositions(n - s)) if deep else [[n - s]]
         for ca in comps_a[:3]:
             for cb in comps_b[:3]:
-                a = accumulate(cap, mty, xs[:s * nch], ca, nch)
-                b = accumulate(cap, mty, xs[s * nch:], cb, nch)
-                c = fresh_moments(mty, nch)
-                it = Interp(capadd, "int")
-                it.run([a, b, c])
-                for ch in range(nch):
-                    spec = two_pass([xs[i * nch + ch].t for i in range(n)])
-                    check_record(P, f"merge[n={n},nchans={nch},split={s},{ca}|{cb}]/chan{ch}", c.store[ch], spec, fields, xs,
-                                 dict(kind="merge", nchans=nch, split=s, chunks_a=ca, chunks_b=cb))
-                P.reached += 1
+                def body(s=s, ca=ca, cb=cb):
+                    a = accumulate(cap, mty, xs[:s * nch], ca, nch)
+                    b = accumulate(cap, mty, xs[s * nch:], cb, nch)
+                    c = fresh_moments(mty, nch)
+                    it = Interp(capadd, "int")
+                    it.run([a, b, c])
+                    return c
+
+                def then(c, pc, s=s, ca=ca, cb=cb):
+                    for ch in range(nch):
+                        spec = two_pass([xs[i * nch + ch].t for i in range(n)])
+                        check_record(P, f"merge[n={n},nchans={nch},split={s},{ca}|{cb}]/chan{ch}", c.store[ch], spec, fields, xs,
+                                     dict(kind="merge", nchans=nch, split=s, chunks_a=ca, chunks_b=cb), pc)
+                    P.reached += 1
+                on_paths(P, body, then)
 
 
 def overflow_work(P, item):
